@@ -559,21 +559,46 @@ func c15Recovery(c *Check) {
 	// --- C15.S: snapshot state is left on both outcomes of the transfer, and by a catching-up ack
 	nProbe := 0
 	okClear := false
+	getRejectM := p.Method("raftpb", "Message", "GetReject")
+	coverOK, coverFail := false, false
 	for _, ci := range p.CallsIn(stepLeader, becomeProbe) {
 		if arm(ci, snapStatus) {
 			nProbe++
+			// which outcomes of the report reach this call
+			f := fi.FactsAt(ci)
+			tested := &Facts{FI: fi, Atoms: f.Tested}
+			rej := tested.HasBool(isCallTo(getRejectM), true) != nil
+			acc := tested.HasBool(isCallTo(getRejectM), false) != nil
+			if !rej && !acc {
+				coverOK, coverFail = true, true
+			}
+			coverFail = coverFail || rej
+			coverOK = coverOK || acc
 		}
+	}
+	precedes := func(a, b ssa.Instruction) bool {
+		if a.Block() == b.Block() {
+			for _, in := range a.Block().Instrs {
+				if in == a {
+					return true
+				}
+				if in == b {
+					return false
+				}
+			}
+		}
+		return fi.ReachableFrom(fi.Succs[a.Block().Index], nil)[b.Block().Index]
 	}
 	for _, st := range p.StoresTo(pendingSnapF) {
 		if st.Fn == stepLeader && !st.Whole && arm(st.Instr, snapStatus) {
 			for _, ci := range p.CallsIn(stepLeader, becomeProbe) {
-				if arm(ci, snapStatus) && fi.InstrDominates(st.Instr, ci) {
+				if arm(ci, snapStatus) && precedes(st.Instr, ci) && !precedes(ci, st.Instr) {
 					okClear = true
 				}
 			}
 		}
 	}
-	c.Result(nProbe >= 2 && okClear, "C15.S", "snapshot status report resumes probing", fnName(stepLeader), p.Pos(stepLeader.Pos()), "MsgSnapStatus: BecomeProbe on success and on failure (failure clears PendingSnapshot first)", fmt.Sprintf("becomeProbe sites=%d clearBefore=%v", nProbe, okClear))
+	c.Result(nProbe >= 1 && coverOK && coverFail && okClear, "C15.S", "snapshot status report resumes probing", fnName(stepLeader), p.Pos(stepLeader.Pos()), "MsgSnapStatus: BecomeProbe on success and on failure (failure clears PendingSnapshot first)", fmt.Sprintf("becomeProbe sites=%d clearBefore=%v", nProbe, okClear))
 	okSnapExit := false
 	for _, ci := range p.CallsIn(stepLeader, becomeProbe) {
 		if !arm(ci, appResp) {
